@@ -24,6 +24,7 @@ const SIM_COMMON: &[&str] = &[
     "logical callers and their interleaving (seeded scheduler)",
     "fault points: cache/memo lookups that report a miss, tables/caches that grow early (rsdd::verif::buggify)",
     "initial capacities of unique tables and lossy caches (knobs)",
+    "process environment of a run: a fresh OS thread per run (library thread-local state starts pristine; its destructors run before the arena is emptied), first library use of the process outside any arena",
 ];
 
 pub fn spec(id: &str) -> Option<PropSpec> {
@@ -85,23 +86,23 @@ pub fn spec(id: &str) -> Option<PropSpec> {
                 "seeded sampling, not exhaustive",
             ],
             real: &["rsdd SATSolver, UnitPropagate, PartialModel, Cnf::new"],
-            simulated: &["logical callers and their interleaving (seeded scheduler)", "memory placement (allocator seam; irrelevant to this component but kept for replay)"],
+            simulated: &["logical callers and their interleaving (seeded scheduler)", "memory placement (allocator seam; irrelevant to this component but kept for replay)", "process environment of a run: a fresh OS thread per run (library thread-local state starts pristine), first library use of the process outside any arena"],
         },
         "C15" => PropSpec {
             id: "C15",
             batches: vec![b("cnf", 150_000, 6_000_000, false)],
-            rule: "one case = one seeded run: a random clause list (usually 0-8 clauses of 0-4 literals over <= 6 variables, one run in four up to 14 clauses of up to 8 literals over 10 variables; incl. the empty formula, empty/unit/duplicate/complementary literals) and a history of up to 54 (thorough: 124) calls by 1-3 logical callers: push/decide/pop/hash on a CnfHasher with the caller's partial model kept in step (hash also with extra assignments the hasher was not told about), set/unset on a PartialModel, insert/remove/union on VarSets, chained Cnf::condition; plus, per run, Cnf::new/eval/wmc on all assignments. Distinct = distinct event-log hash. Non-trivial = non-empty formula and at least two hash calls.",
+            rule: "one case = one seeded run: a random clause list (usually 0-8 clauses of 0-4 literals over <= 6 variables, one run in four up to 14 clauses of up to 8 literals over 10 variables; incl. the empty formula, empty/unit/duplicate/complementary literals) and a history of up to 54 (thorough: 124) calls by 1-3 logical callers: push/decide/pop/hash on a CnfHasher with the caller's partial model kept in step (hash also with extra assignments the hasher was not told about), set/unset on a PartialModel, insert/remove/union on VarSets, chained Cnf::condition; plus, per run, Cnf::new/eval/wmc on all assignments. One run in six: a large formula (11-60 variables, up to 90 clauses, one in eight with a 27-45-literal clause); one run in 1500: the sweep scenario (300-9000 literal occurrences, every variable once; every single-occurrence residual is hashed, pairwise different hashes and route-independent hashes demanded). Distinct = distinct event-log hash. Non-trivial = non-empty formula and at least two hash calls.",
             states_measure: "distinct HashedCNF values produced",
             probe_prefixes: &["__none"],
             assumptions: &[
-                "at most 10 variables (explicit assignment sets)",
+                "explicit assignment sets up to 10 variables; larger formulas (11-60 variables; sweep scenario: 300-9000 variables, every variable once) are judged on sampled assignments (eval/condition) and on residual formulas computed by the harness (hasher), never by enumeration",
                 "residual formulas are compared with clause identity (which clauses are unsatisfied, and their unassigned literals), which is what the hasher's per-occurrence primes encode",
-                "the 'only then' direction is asserted only while the prime product fits in 128 bits",
+                "the 'only then' direction is asserted only while the prime product fits in 128 bits (for the whole formula, or for the residual at hand: a bound from the largest primes it could carry)",
                 "Cnf::new/eval/is_sat_partial/condition/wmc are input-only clauses: for them this is plain seeded generation, the simulator adds nothing",
                 "no fault kinds exist for this component; the explored space is the call schedule",
             ],
             real: &["rsdd Cnf, CnfHasher, PartialModel, VarSet, AssignmentIter, WmcParams, RealSemiring, FiniteField"],
-            simulated: &["logical callers and their interleaving (seeded scheduler)", "memory placement (allocator seam; irrelevant to this component but kept for replay)"],
+            simulated: &["logical callers and their interleaving (seeded scheduler)", "memory placement (allocator seam; irrelevant to this component but kept for replay)", "process environment of a run: a fresh OS thread per run (library thread-local state starts pristine), first library use of the process outside any arena"],
         },
         "C03" => PropSpec {
             id: "C03",
